@@ -526,7 +526,7 @@ func runC12(r *evid.Run) {
 		return
 	}
 	states += lres.Distinct
-	var linkedCompared int64
+	var linkedCompared, linkedHdl int64
 	readNDJSON(rowPath, func(b []byte) error {
 		var row struct {
 			LinkFirst bool   `json:"linkfirst"`
@@ -562,9 +562,20 @@ func runC12(r *evid.Run) {
 		if fmt.Sprint(got) != fmt.Sprint(want) {
 			r.Violate("wrong-output:linked-goroutines", fmt.Sprintf("two linked goroutines: the external outputs settle to %v, the source gives %v", got, want), ctx)
 		}
+		// the same on the generated hardware of the requested machine
+		hw, herr := hdlSettledOutputs(res.bmJSON, []uint64{row.In0, row.Inx}, 1500)
+		ctx["hardware_settles_to"] = hw
+		if herr != nil {
+			r.Violate("emitted-machine-hardware-not-executable", fmt.Sprintf("the generated hardware of the machine emitted for two linked goroutines cannot be executed: %v", herr), ctx)
+		} else if fmt.Sprint(hw) != fmt.Sprint(want) {
+			r.Violate("wrong-output:linked-goroutines:hardware", fmt.Sprintf("two linked goroutines: the external outputs of the generated hardware settle to %v, the source gives %v", hw, want), ctx)
+		} else {
+			linkedHdl++
+		}
 		return nil
 	})
 	r.Set("linked_goroutine_programs_compared", linkedCompared)
+	r.Set("linked_goroutine_programs_compared_on_the_generated_hardware", linkedHdl)
 
 	// ---- goroutines joined by an unbuffered channel (GoChan): the streams on both sides ------------------------
 	chanRows := filepath.Join(scratch, "chan.ndjson")
@@ -860,6 +871,57 @@ func goRunCmd(path string) int {
 	hs, err := hdlOutputChanges(res.bmJSON, 1500)
 	fmt.Println("hdl output changes:", hs, "err:", err)
 	return 0
+}
+
+// hdlSettledOutputs runs the generated Verilog of an emitted machine with its external inputs held and
+// returns the values on the external outputs after nclk clocks.
+func hdlSettledOutputs(bmJSON []byte, inputs []uint64, nclk int) (outs []uint64, err error) {
+	defer func() {
+		if e := recover(); e != nil {
+			err = fmt.Errorf("panic: %v", e)
+		}
+	}()
+	bm, err := loadMachine(bmJSON)
+	if err != nil {
+		return nil, err
+	}
+	sim, _, err := elaborateBM(bm)
+	if err != nil {
+		return nil, err
+	}
+	hold := func() {
+		for i := 0; i < bm.Inputs; i++ {
+			v := uint64(0)
+			if i < len(inputs) {
+				v = inputs[i]
+			}
+			sim.Set(fmt.Sprintf("i%d", i), v)
+			sim.Set(fmt.Sprintf("i%d_valid", i), 1)
+		}
+		for o := 0; o < bm.Outputs; o++ {
+			sim.Set(fmt.Sprintf("o%d_received", o), 0)
+		}
+	}
+	hold()
+	sim.Set("reset", 1)
+	if err := sim.Step("clk"); err != nil {
+		return nil, err
+	}
+	sim.Set("reset", 0)
+	if err := powerUpZero(sim); err != nil {
+		return nil, err
+	}
+	for t := 0; t < nclk; t++ {
+		hold()
+		if err := sim.Step("clk"); err != nil {
+			return nil, fmt.Errorf("clock %d: %v", t, err)
+		}
+	}
+	for o := 0; o < bm.Outputs; o++ {
+		v, _ := sim.Get(fmt.Sprintf("o%d", o))
+		outs = append(outs, v)
+	}
+	return outs, nil
 }
 
 // hdlOutputChanges runs the generated Verilog of an emitted machine for nclk clocks and returns, for
